@@ -39,7 +39,7 @@ func (e *SpecEnv) pkg() *types.Package {
 			return p.Types
 		}
 	}
-	if e.vc.fn.Pkg != nil {
+	if e.vc.fn != nil && e.vc.fn.Pkg != nil {
 		return e.vc.fn.Pkg.Pkg
 	}
 	return nil
